@@ -55,6 +55,9 @@ func runC06(p *chk.Prog, r *chk.Report) {
 	c06Handler(p, r)
 	c06Clear(p, r)
 	releaseOnExitRule(p, r)
+	// a request refused after its addresses were assigned gives them back (REQUEST-IPS, shared with C02): otherwise the
+	// allocator's memory holds an address that no status records, and a restarted controller disagrees with the running one
+	c02Requests(p, r)
 }
 
 func c06Gate(p *chk.Prog, r *chk.Report) {
